@@ -175,6 +175,9 @@ pub struct EnumDecl {
     pub colon: bool,
     /// storage written as `arbitrary_int::uN`
     pub qualified: bool,
+    /// `#[bitenum(exhaustive = x, uN)]` instead of `#[bitenum(uN, exhaustive = x)]`
+    #[serde(default)]
+    pub args_swapped: bool,
 }
 
 impl EnumDecl {
